@@ -659,6 +659,9 @@ func (x *Exec) convert(st *State, v Val, to types.Type, pos string) Val {
 			arr := x.heapArr(st, memName, ms)
 			x.heapSet(st, memName, ms, sto(arr, ref, app("gstr.bytes", v.S)))
 			n := x.strLen(v.S)
+			// Go: string([]byte(s)) == s (instance for this string; the converse direction is not assumed)
+			x.decls.Fun("gstr.of", []string{"(Array " + x.sorts.Idx() + " " + x.byteSort() + ")", x.sorts.Idx(), x.sorts.Idx()}, "Str")
+			st.assume(eq(app("gstr.of", app("gstr.bytes", v.S), x.idxLit(0), n), v.S))
 			return Val{T: to, K: KSlice, Ref: ref, Off: x.idxLit(0), Len: n, Cap: n}
 		}
 	}
